@@ -1,4 +1,5 @@
 """C06 (history property; see DESIGN.md section 5)."""
+import common
 import gen
 import hist
 from props.hist_base import HistPlugin
@@ -27,3 +28,122 @@ class Plugin(HistPlugin):
             return HistPlugin.gen_case(self, rng, i, tier)
         finally:
             gen.TINY[0] = False
+
+    def extra_checks(self, rng, tier, seed):
+        """A unique index belongs to the collection, not to the handle that created it
+        (implementation probes against a reference dictionary): writes, index creation / removal
+        and a rebuilt collection renamed over the live one, issued through several handles of the
+        SAME collection (attribute access, with_options, a second client on the same store).
+        After every call: accepted / rejected as the reference says, same documents, and the
+        unique index listed iff the reference has it."""
+        import mongomock
+        from mongomock.write_concern import WriteConcern
+        n = 60 if tier == 'quick' else 1500
+        viol, done, steps = [], 0, 0
+        for i in range(n):
+            client = mongomock.MongoClient()
+            db = client.db
+            other_client = mongomock.MongoClient(_store=client._store)
+            handles = [db.c, db.c.with_options(write_concern=WriteConcern(w=1)), other_client.db.c,
+                       db.get_collection('c')]
+            ref_docs, ref_index, next_id = {}, False, [1]
+            trace = []
+
+            def uniq_listed():
+                return any(v.get('unique') and [k for k, _ in v['key']] == ['k']
+                           for v in handles[0].index_information().values())
+
+            bad = None
+            for _ in range(rng.randint(4, 9)):
+                h = rng.randrange(len(handles))
+                coll = handles[h]
+                kind = rng.choice(['insert', 'insert', 'insert', 'update', 'create', 'drop', 'swap', 'upsert'])
+                k = rng.choice([1, 2, 3])
+                op = {'handle': h, 'op': kind, 'k': k}
+                want = 'ok'
+                try:
+                    if kind == 'insert':
+                        did = next_id[0]
+                        next_id[0] += 1
+                        op['_id'] = did
+                        if ref_index and k in ref_docs.values():
+                            want = 'dup'
+                        coll.insert_one({'_id': did, 'k': k})
+                        ref_docs[did] = k
+                    elif kind == 'update':
+                        if not ref_docs:
+                            continue
+                        did = rng.choice(sorted(ref_docs))
+                        op['_id'] = did
+                        if ref_index and any(v == k for d, v in ref_docs.items() if d != did):
+                            want = 'dup'
+                        via = rng.choice(['update_one', 'replace_one', 'find_one_and_update'])
+                        op['via'] = via
+                        if via == 'replace_one':
+                            coll.replace_one({'_id': did}, {'k': k})
+                        else:
+                            getattr(coll, via)({'_id': did}, {'$set': {'k': k}})
+                        ref_docs[did] = k
+                    elif kind == 'upsert':
+                        did = next_id[0]
+                        next_id[0] += 1
+                        op['_id'] = did
+                        if ref_index and k in ref_docs.values():
+                            want = 'dup'
+                        coll.update_one({'_id': did}, {'$set': {'k': k}}, upsert=True)
+                        ref_docs[did] = k
+                    elif kind == 'create':
+                        vals = list(ref_docs.values())
+                        if len(set(vals)) != len(vals):
+                            want = 'dup'
+                        coll.create_index('k', unique=True)
+                        ref_index = True
+                    elif kind == 'drop':
+                        coll.drop_indexes()
+                        ref_index = False
+                    else:
+                        # rebuild under another name, with or without the index, and swap it in
+                        st = db.staging
+                        st.drop()
+                        with_index = rng.random() < 0.7
+                        op['with_index'] = with_index
+                        if with_index:
+                            st.create_index('k', unique=True)
+                        new = {}
+                        for kk in rng.sample([1, 2, 3], rng.choice([0, 1, 2])):
+                            new[next_id[0]] = kk
+                            next_id[0] += 1
+                        if new:
+                            st.insert_many([{'_id': d, 'k': v} for d, v in new.items()])
+                        elif not with_index:
+                            st.insert_one({'_id': next_id[0], 'k': 3})
+                            new[next_id[0]] = 3
+                            next_id[0] += 1
+                        op['docs'] = dict(new)
+                        st.rename('c', dropTarget=True)
+                        ref_docs, ref_index = new, with_index
+                    got = 'ok'
+                except mongomock.DuplicateKeyError:
+                    got = 'dup'
+                except Exception as e:  # noqa
+                    got = 'raise:' + type(e).__name__
+                op['outcome'] = got
+                trace.append(op)
+                steps += 1
+                if got != want:
+                    bad = 'the call was %s, the reference says %s' % (got, want)
+                else:
+                    stored = {d['_id']: d.get('k') for d in handles[rng.randrange(len(handles))].find()}
+                    if stored != ref_docs:
+                        bad = 'the collection holds %r, the reference %r' % (stored, ref_docs)
+                    elif uniq_listed() != ref_index:
+                        bad = 'unique index listed: %r, reference: %r' % (uniq_listed(), ref_index)
+                if bad:
+                    break
+            done += 1
+            if bad:
+                viol.append({'case': {'ops': common.to_jsonable(trace)}, 'impl': {'last': trace[-1]['outcome']},
+                             'failing_clause': 'several handles of one collection: ' + bad})
+                if len(viol) >= 3:
+                    break
+        return viol, {'multi_handle_histories': done, 'multi_handle_steps': steps}
